@@ -256,6 +256,7 @@ def image_constructor_sites(repo, tier):
     classes = image_classes(dt)
     obls, fns = [], []
     n_sites = 0
+    n_none = 0
     for rel, mod in modules(repo).items():
         ix = Index(mod)
         per_fn = {}
@@ -303,6 +304,19 @@ def image_constructor_sites(repo, tier):
                     oid = f"C04/{short(rel)}::{q}/call-pre#{cls}-size_bytes-is-len-of-payload@{k}"
                     p_e, z_e = kw.get(pf, defaults.get(pf)), kw.get(SIZE_FIELD, defaults.get(SIZE_FIELD))
                     obls.append(_size_obligation(oid, rel, call, fnode, cls, pf, p_e, z_e, pf in kw, SIZE_FIELD in kw))
+                # ---- declared types at the constructor (DT-TYPED is what the accessor contracts assume): no recognised source of
+                # None may reach a field declared int / str / bytes
+                anns = _field_annotations(dt, cls)
+                for f_, e_ in sorted(kw.items()):
+                    if anns.get(f_) in ("int", "str", "bytes", "float", "bool") and isinstance(fnode, (ast.FunctionDef, ast.AsyncFunctionDef)):
+                        why = may_be_none(mod, fnode, e_, 0, ix, ix.stmt_of(call))
+                        if why:
+                            o = ground_obligation(f"C04/{short(rel)}::{q}/call-pre#{cls}-{f_}-not-from-a-None-source@{k}", False,
+                                                  f"{rel}:{call.lineno} {cls}({f_}={ast.unparse(e_)[:40]}): the field is declared {anns[f_]} but {why}; the accessors "
+                                                  f"compare / strip it without a None test", rel, definite=False)
+                            o["replay_hint"] = {"kind": "image-type", "class": cls}
+                            obls.append(o)
+                            n_none += 1
                 # ---- image number >= 1
                 if nf is not None:
                     oid = f"C04/{short(rel)}::{q}/call-pre#{cls}-{nf}-positive@{k}"
@@ -328,6 +342,120 @@ def image_constructor_sites(repo, tier):
     obls.append(ground_obligation("C04/package/call-pre#image-constructor-sites-scanned", n_sites >= 20,
                                   f"{n_sites} image constructor call sites in the parsing package", "package"))
     return {"obligations": obls, "functions": fns}
+
+
+def _field_annotations(dt, cls):
+    out = {}
+    node = dt.classes.get(cls)
+    if node is None:
+        return out
+    for b in node.bases:
+        bn = ast.unparse(b).split(".")[-1]
+        if bn in dt.classes and bn != cls:
+            out.update(_field_annotations(dt, bn))
+    for b in node.body:
+        if isinstance(b, ast.AnnAssign) and isinstance(b.target, ast.Name):
+            out[b.target.id] = ast.unparse(b.annotation)
+    return out
+
+
+def may_be_none(mod, fnode, e, depth=0, ix=None, at=None):
+    """Reason why expression e can be None according to the recognised sources (None constant, a package function whose return
+    annotation / return statements include None at that position, dict.get without default), '' otherwise.  A name that the
+    function tests against None / falsiness or re-binds with `or <default>` is considered handled."""
+    if depth > 4 or e is None:
+        return ""
+    if isinstance(e, ast.Constant):
+        return "it is the constant None" if e.value is None else ""
+    if isinstance(e, ast.IfExp):
+        return may_be_none(mod, fnode, e.body, depth + 1) or may_be_none(mod, fnode, e.orelse, depth + 1)
+    if isinstance(e, ast.BoolOp) and isinstance(e.op, ast.Or):
+        return may_be_none(mod, fnode, e.values[-1], depth + 1)
+    if isinstance(e, ast.Call):
+        if isinstance(e.func, ast.Attribute) and e.func.attr == "get" and len(e.args) == 1 and not e.keywords:
+            return f"{ast.unparse(e)[:30]} is None for a missing key"
+        return _call_none(mod, e, None)
+    if isinstance(e, ast.Name):
+        for n in own_walk(fnode):
+            if isinstance(n, ast.Compare) and isinstance(n.left, ast.Name) and n.left.id == e.id and any(isinstance(o, (ast.Is, ast.IsNot)) for o in n.ops):
+                return ""
+            if isinstance(n, ast.UnaryOp) and isinstance(n.op, ast.Not) and isinstance(n.operand, ast.Name) and n.operand.id == e.id:
+                return ""
+            if isinstance(n, (ast.If, ast.IfExp, ast.While)) and isinstance(n.test, ast.Name) and n.test.id == e.id:
+                return ""
+            if isinstance(n, ast.BoolOp) and any(isinstance(v, ast.Name) and v.id == e.id for v in n.values[:-1]):
+                return ""
+        defs = single_defs(fnode, e.id)
+        if at is not None and ix is not None:
+            dom = _dominating_def(ix, fnode, at, e.id)
+            if dom is not None:
+                defs = [dom]
+        for d in defs:
+            if d[0] == "assign":
+                w = may_be_none(mod, fnode, d[1], depth + 1)
+            elif d[0] == "unpack" and isinstance(d[1], ast.Call):
+                w = _call_none(mod, d[1], d[2])
+            else:
+                w = ""
+            if w:
+                return w
+    return ""
+
+
+def _dominating_def(ix, fnode, stmt, name):
+    """The latest unconditional binding of `name` that precedes `stmt` in its block or an enclosing block (as a single_defs
+    record), else None."""
+    cur = stmt
+    while cur is not None and cur is not fnode:
+        parent = ix.parent.get(id(cur))
+        if parent is None:
+            return None
+        for fld_ in ("body", "orelse", "finalbody"):
+            blk = getattr(parent, fld_, None)
+            if isinstance(blk, list) and cur in blk:
+                for s_ in reversed(blk[:blk.index(cur)]):
+                    if isinstance(s_, ast.Assign) and len(s_.targets) == 1:
+                        t = s_.targets[0]
+                        if isinstance(t, ast.Name) and t.id == name:
+                            return ("assign", s_.value, s_)
+                        if isinstance(t, (ast.Tuple, ast.List)):
+                            for i, x in enumerate(t.elts):
+                                if isinstance(x, ast.Name) and x.id == name:
+                                    return ("unpack", s_.value, i, s_)
+                    if any(isinstance(n, ast.Name) and n.id == name and isinstance(n.ctx, ast.Store) for n in ast.walk(s_)):
+                        return None          # bound conditionally in between: all definitions count
+        cur = parent if isinstance(parent, (ast.stmt, ast.ExceptHandler)) else ix.stmt_of(parent)
+    return None
+
+
+def _call_none(mod, call, index):
+    name = dotted(call.func).split(".")[-1]
+    g = mod.functions.get(name)
+    if g is None:
+        cands = [f for q, f in mod.functions.items() if q.split(".")[-1] == name and "<locals>" not in q]
+        g = cands[0] if len(cands) == 1 else None
+    if g is None:
+        return ""
+    ann = g.returns
+    if ann is not None:
+        if isinstance(ann, ast.Constant) and isinstance(ann.value, str):
+            try:
+                ann = ast.parse(ann.value, mode="eval").body
+            except SyntaxError:
+                ann = None
+    if ann is not None:
+        part = ann
+        if index is not None and isinstance(ann, ast.Subscript) and dotted(ann.value).split(".")[-1] in ("tuple", "Tuple") and isinstance(ann.slice, ast.Tuple) \
+                and index < len(ann.slice.elts):
+            part = ann.slice.elts[index]
+        txt = ast.unparse(part)
+        if "None" in txt or "Optional" in txt:
+            return f"{name}() is annotated to return {txt}" + (f" at position {index}" if index is not None else "")
+    for r in [n.value for n in own_walk(g) if isinstance(n, ast.Return) and n.value is not None]:
+        v = r.elts[index] if index is not None and isinstance(r, ast.Tuple) and index < len(r.elts) else (r if index is None else None)
+        if isinstance(v, ast.Constant) and v.value is None:
+            return f"{name}() returns None" + (f" at position {index}" if index is not None else "")
+    return ""
 
 
 def _is_value_use(ix, name_node):
